@@ -161,7 +161,8 @@ def cases(tier, seed):
     # the very first call of a process (run_sharded gives "cold" cases a process each; the harness uses nothing of the
     # library before the first operation): each kind of text once as the first thing the parser ever sees
     firsts = ["1", "-7", "#x1f", "(1 2)", "()", "(1 (2 3))", " 12 ", "12)", "(1", "a", "(a 1)", "+", "(", ")", "-", "#", "1a", "(1a)",
-              "\t5", "007", "#xZ", "(#x10 -3)", "a1", "1 a", "(- 1)", "-a"]
+              "\t5", "007", "#xZ", "(#x10 -3)", "a1", "1 a", "(- 1)", "-a",
+              "#x1F\n", "  #xff ", "#x10 #x20", "#x7)", "#xAb\t", "#x0(", "12 ", "-3 4", "  7\n", "\n(", " )", "#x", "#xg "]
     for i, t in enumerate(firsts):
         cs.append(Case("first-%d" % i, ["sx.parse %s" % t.encode().hex(), "sx.parse %s" % t.encode().hex()], ("sx", "cold")))
     return cs + deep_cases()
